@@ -3,7 +3,7 @@
    Harvey butterflies with machine-word wrap; final strict reduction), proofs: Transform.v, Inverse.v, NTTClosed.v, NTTTables.v.
    Tables: gen/Params.v regenerated from params.hpp on this run. *)
 From Coq Require Import ZArith List.
-From NTT Require Import Functors Algebra Inverse NTTInst NTTClosed NTTTables Shards Permut.
+From NTT Require Import Functors Algebra Inverse NTTInst NTTClosed NTTTables Shards Permut Tables FlatTable.
 From NTT.gen Require Import Params.
 Local Open Scope Z_scope.
 
@@ -56,6 +56,20 @@ Print Assumptions C02_permut_table.
 Theorem C02_permut_unrolled : forall k0 x, perm_unrolled k0 x = BR k0 x.
 Proof. exact perm_unrolled_BR. Qed.
 Print Assumptions C02_permut_unrolled.
+
+(* the twiddle tables are ONE array walked by pointer arithmetic (prep_wtab writes level after level; ntt_loop does wtab += N/2 per layer;
+   the fused layers read wtab[1]): the level-indexed view of the model is that array at exactly those offsets, and it fits (degree-1 entries) *)
+Theorem C02_flat_table : forall p k om lvl i, (lvl < k)%nat -> (i < 2 ^ (k - lvl - 1))%nat ->
+  nth (off k lvl + i) (flat p k om) 0 = nth i (nth lvl (prep p k om) nil) 0.
+Proof. exact flat_level. Qed.
+Print Assumptions C02_flat_table.
+Theorem C02_flat_table_fits : forall p k om, (length (flat p k om) + 1 = 2 ^ k)%nat.
+Proof. exact flat_length. Qed.
+Print Assumptions C02_flat_table_fits.
+Theorem C02_flat_fused_twiddle : forall p k2 om,
+  nth (off (S (S k2)) k2 + 1) (flat p (S (S k2)) om) 0 = nth 1 (nth k2 (prep p (S (S k2)) om) nil) 0.
+Proof. exact flat_fused_twiddle. Qed.
+Print Assumptions C02_flat_fused_twiddle.
 
 (* non-vacuity: the model run on a real row reproduces the words the real library printed (degree 8, p = 15361) *)
 Example C02_nonvacuous :
